@@ -5,6 +5,7 @@ on `end` one line is printed: `ERR <kind>` or the canonical emitted definition.
 -/
 import Sc3Verif.C01.Model
 import Sc3Verif.C01.Scgf
+import Sc3Verif.C01.Validate
 open Sc3Verif.C01
 
 def fmtRat (q : Rat) : String := if q.den == 1 then s!"{q.num}" else s!"{q.num}/{q.den}"
@@ -69,32 +70,98 @@ def hexByte (b : UInt8) : String :=
   let h := "0123456789abcdef".toList
   String.ofList [h[(b.toNat / 16)]!, h[(b.toNat % 16)]!]
 
+/-- side-effecting atom-like source objects: must survive -/
+def mustList (info : BuildInfo) : List Nat :=
+  info.children0.filter fun o =>
+    match info.objs0[o]? with
+    | some x => (srcKind x).isNone && !x.dce
+    | none => false
+
+def selfValidate (d : Def) (info : BuildInfo) : Bool :=
+  let units := (d.units.zip info.origins).map fun (u, o) =>
+    ({ cls := u.cls, rate := u.rate, special := u.special, inputs := u.inputs, nOut := u.outs.length,
+       origin := some o } : EUnit)
+  validate info.objs0 (mustList info) d.consts units
+
+def hexVal (c : Char) : Option Nat :=
+  if c.isDigit then some (c.toNat - '0'.toNat)
+  else if 'a' ≤ c ∧ c ≤ 'f' then some (c.toNat - 'a'.toNat + 10) else none
+
+def parseHex : List Char → Option (List UInt8)
+  | [] => some []
+  | a :: b :: r => do
+    let x ← hexVal a; let y ← hexVal b
+    (parseHex r).map (UInt8.ofNat (x * 16 + y) :: ·)
+  | _ => none
+
+/-- origin token: `-` none, `e` = main (last) object of event e, `e.d` = the silence DC an
+    `Out.ar` event created before its Out unit -/
+def originObj (info : BuildInfo) (tok : String) : Option Nat :=
+  match tok.splitOn "." with
+  | [e] => e.toNat?.bind fun i => (info.evObjs.getD i []).getLast?
+  | [e, "d"] => e.toNat?.bind fun i =>
+      let l := info.evObjs.getD i []
+      if l.length ≥ 2 then l[l.length - 2]? else none
+  | _ => none
+
+/-- validate bytes produced by the REAL implementation against the model's source graph -/
+def validateReal (info : BuildInfo) (hex : String) (origins : List String) : String :=
+  match parseHex hex.toList with
+  | none => "INVALID bad-hex"
+  | some bs =>
+    match parseW bs with
+    | none => "INVALID unparsable"
+    | some w =>
+      match allSome (w.consts.map f32ToRat) with
+      | none => "INVALID const"
+      | some consts =>
+        if w.units.length != origins.length then "INVALID origin-count"
+        else
+          let units := (w.units.zip origins).map fun (u, tok) =>
+            ({ cls := String.fromUTF8! (ByteArray.mk u.cls.toArray), rate := u.rate.toNat, special := u.special,
+               inputs := u.inputs.map fun p => (p.1, p.2.toNat), nOut := u.outs.length,
+               origin := originObj info tok } : EUnit)
+          if validate info.objs0 (mustList info) consts units then "VALID" else "INVALID"
+
 partial def loop (h out : IO.FS.Stream) (name : String) (pnames : List (String × Nat))
-    (evs : List Ev) (bad : Bool) : IO Unit := do
+    (evs : List Ev) (bad : Bool) (last : Option BuildInfo) : IO Unit := do
   let line ← h.getLine
   if line.isEmpty then return ()
   let l := line.trimAscii.toString
   if l.startsWith "prog" then
     let nm := ((l.splitOn " ").getD 1 "")
-    loop h out nm [] [] false
+    loop h out nm [] [] false none
   else if l.startsWith "pname " then
     match l.splitOn " " with
-    | [_, n, i] => loop h out name (pnames ++ [(n, i.toNat!)]) evs bad
-    | _ => loop h out name pnames evs true
+    | [_, n, i] => loop h out name (pnames ++ [(n, i.toNat!)]) evs bad last
+    | _ => loop h out name pnames evs true last
   else if l == "end" then
-    if bad then out.putStrLn "ERR MODEL-PARSE"
+    if bad then
+      out.putStrLn "ERR MODEL-PARSE"
+      loop h out "" [] [] false none
     else
-      match compile evs with
-      | .error e => out.putStrLn ("ERR " ++ fmtErr e)
-      | .ok d =>
+      match compileInfo evs with
+      | .error e =>
+        out.putStrLn ("ERR " ++ fmtErr e)
+        loop h out "" [] [] false none
+      | .ok (d, info) =>
         match writeFile name pnames d with
         | none => out.putStrLn ("ERR WRITE")
-        | some bytes => out.putStrLn (fmtDef d ++ " B=" ++ String.join (bytes.map hexByte))
-    loop h out "" [] [] false
+        | some bytes =>
+          out.putStrLn (fmtDef d ++ " B=" ++ String.join (bytes.map hexByte)
+            ++ (if selfValidate d info then " V=1" else " V=0"))
+        loop h out "" [] [] false (some info)
+  else if l.startsWith "validate" then
+    match l.splitOn " ", last with
+    | [_, hex, origins], some info =>
+      out.putStrLn (validateReal info hex (origins.splitOn ","))
+    | [_, hex], some info => out.putStrLn (validateReal info hex [])
+    | _, _ => out.putStrLn "NA"
+    loop h out name pnames evs bad last
   else
     match parseEv l with
-    | some e => loop h out name pnames (evs ++ [e]) bad
-    | none => loop h out name pnames evs true
+    | some e => loop h out name pnames (evs ++ [e]) bad last
+    | none => loop h out name pnames evs true last
 
 def main : IO Unit := do
-  loop (← IO.getStdin) (← IO.getStdout) "" [] [] false
+  loop (← IO.getStdin) (← IO.getStdout) "" [] [] false none
